@@ -7,18 +7,28 @@ from props.broker import count_true
 from props.resp import RespH
 
 
-def cluster(e, a, b, c, epoch):
-    """nodes: A stable [0..a] + Migrating [a+1..b] -> B;  B Importing [a+1..b] + stable [b+1..c];  C stable [c+1..16383]"""
-    meta = {'epoch': epoch, 'src_proxy': 'pa:7000', 'src_node': 'pa:6000', 'dst_proxy': 'pb:7000', 'dst_node': 'pb:6000'}
-    A = [slot_range(e, [(0, a)]), slot_range(e, [(a + 1, b)], ('Migrating', meta))]
-    B = [slot_range(e, [(a + 1, b)], ('Importing', meta)), slot_range(e, [(b + 1, c)])]
+def cluster(e, a, b, c, epoch, layout='three'):
+    """per proxy, per node the slot ranges.
+    layout 'three':  A stable [0..a] + Migrating [a+1..b] -> B;  B Importing [a+1..b] + stable [b+1..c];  C stable [c+1..16383]
+    layout 'two-local' (after a failover that promoted the local replica): proxy pa holds two masters, pa:6000 with A's ranges
+    and pa:6001 with C's range; the proxies are pa and pb only
+    layout 'two-local-dst': the same with the roles of the migration swapped (the two-master proxy is the destination)"""
+    if layout == 'two-local-dst':
+        meta = {'epoch': epoch, 'src_proxy': 'pb:7000', 'src_node': 'pb:6000', 'dst_proxy': 'pa:7000', 'dst_node': 'pa:6000'}
+        A = [slot_range(e, [(0, a)]), slot_range(e, [(a + 1, b)], ('Importing', meta))]
+        B = [slot_range(e, [(a + 1, b)], ('Migrating', meta)), slot_range(e, [(b + 1, c)])]
+    else:
+        meta = {'epoch': epoch, 'src_proxy': 'pa:7000', 'src_node': 'pa:6000', 'dst_proxy': 'pb:7000', 'dst_node': 'pb:6000'}
+        A = [slot_range(e, [(0, a)]), slot_range(e, [(a + 1, b)], ('Migrating', meta))]
+        B = [slot_range(e, [(a + 1, b)], ('Importing', meta)), slot_range(e, [(b + 1, c)])]
     C = [slot_range(e, [(c + 1, SLOT_NUM - 1)])]
-    return {'pa': A, 'pb': B, 'pc': C}
+    if layout == 'three': return {'pa': {'pa:6000': A}, 'pb': {'pb:6000': B}, 'pc': {'pc:6000': C}}
+    return {'pa': {'pa:6000': A, 'pa:6001': C}, 'pb': {'pb:6000': B}}
 
 
 def proxy_maps(e, nodes, me):
-    local = node_map(e, {'%s:6000' % me: [clone(x) for x in nodes[me]]})
-    peer = node_map(e, {'%s:7000' % p: [clone(x) for x in nodes[p]] for p in nodes if p != me})
+    local = node_map(e, {n: [clone(x) for x in rs] for n, rs in nodes[me].items()})
+    peer = node_map(e, {'%s:7000' % p: [clone(x) for rs in nodes[p].values() for x in rs] for p in nodes if p != me})
     return local, peer
 
 
@@ -104,14 +114,17 @@ def scenario(ctx, job):
             e.assume(z3.ULT(a + 1, b)) if job.get('wide') else e.assume(z3.ULE(a + 1, b))
             e.assume(z3.ULT(b, c)); e.assume(z3.ULT(c, SLOT_NUM - 1)); e.assume(z3.ULT(a, SLOT_NUM))
         epoch = z3.BitVec('mepoch', 64)
-        nodes = cluster(e, a, b, c, epoch)
+        layout = job.get('layout', 'three')
+        nodes = cluster(e, a, b, c, epoch, layout)
+        src_p, dst_p = ('pb', 'pa') if layout == 'two-local-dst' else ('pa', 'pb')
+        c_owner = 'pc:' if layout == 'three' else 'pa:'
         states = e.src.enums['MigrationState']
         st = job['state'] if job.get('state') is not None else e.choose(len(states), 'migration-state')
         ver = e.choose(2, 'nodes-version')
         s = z3.BitVec('slot', 64); e.assume(z3.ULT(s, SLOT_NUM))
         migr_rl = Struct('RangeList', [RVec([Cell(Struct('Range', [a + 1, b]))])])
         items = []
-        for me in ('pa', 'pb', 'pc'):
+        for me in sorted(nodes):
             local, peer = proxy_maps(e, nodes, me)
             if job.get('concrete'):
                 bm, lf, pf = backend_map(e, local, peer)
@@ -128,7 +141,7 @@ def scenario(ctx, job):
             if me in ('pa', 'pb'): ms.items.append((clone(migr_rl), Cell(Enum('MigrationState', st))))
             text = e.run_func(e.find_fn('ClusterBackendMap', 'gen_cluster_nodes'), [Ref(Cell(bm)), RStr('%s:7000' % me), Ref(Cell(ms)), Enum('ClusterNodesVersion', ver)])
             slots = e.run_func(e.find_fn('ClusterBackendMap', 'gen_cluster_slots'), [Ref(Cell(bm)), RStr('%s:7000' % me), Ref(Cell(ms))])
-            def wit(m, me=me, text=text): return {'proxy': me, 'state': states[st], 'version': ver, 'a': concretize(a, m), 'b': concretize(b, m), 'c': concretize(c, m), 'slot': concretize(s, m), 'cluster_nodes': concretize(text, m)}
+            def wit(m, me=me, text=text): return {'proxy': me, 'layout': layout, 'state': states[st], 'version': ver, 'a': concretize(a, m), 'b': concretize(b, m), 'c': concretize(c, m), 'slot': concretize(s, m), 'cluster_nodes': concretize(text, m)}
             items.append(('cluster-slots-ok', 'C14/cluster-slots-error', slots.variant == 0, wit))
             if slots.variant != 0: continue
             lines = parse_nodes_text(e, text)
@@ -152,9 +165,9 @@ def scenario(ctx, job):
             def adv(nid_pred):
                 return zor([zand([c_, nid_pred(addr.split('@')[0])]) for n2, addr, c_ in cov_nodes])
             items.append(('stable-slot-advertised-at-owner', 'C14/stable-slot-advertised-elsewhere',
-                          zand([z3.Implies(zbool(in_a), zbool(adv(lambda ad: ad.startswith('pa:')))), z3.Implies(zbool(in_b), zbool(adv(lambda ad: ad.startswith('pb:')))), z3.Implies(zbool(in_c), zbool(adv(lambda ad: ad.startswith('pc:'))))]), wit))
+                          zand([z3.Implies(zbool(in_a), zbool(adv(lambda ad: ad.startswith('pa:')))), z3.Implies(zbool(in_b), zbool(adv(lambda ad: ad.startswith('pb:')))), z3.Implies(zbool(in_c), zbool(adv(lambda ad: ad.startswith(c_owner))))]), wit))
             if me in ('pa', 'pb'):
-                exp = 'pa:' if states[st] == 'PreCheck' else 'pb:'
+                exp = (src_p if states[st] == 'PreCheck' else dst_p) + ':'
                 items.append(('migrating-slot-advertised-by-phase', 'C14/migrating-slot-advertised-at-wrong-side', z3.Implies(zbool(in_m), zbool(adv(lambda ad: ad.startswith(exp)))), wit))
             else:
                 items.append(('migrating-slot-advertised-at-a-participant', 'C14/migrating-slot-advertised-at-non-participant', z3.Implies(zbool(in_m), zbool(adv(lambda ad: ad.startswith('pa:') or ad.startswith('pb:')))), wit))
@@ -176,7 +189,7 @@ def scenario(ctx, job):
         ctx.require_all(e, items)
         return 6
     def setup(e): e.max_steps = 80_000_000
-    res = ctx.explore('topology %s state=%s' % ('concrete %s' % (job['concrete'],) if job.get('concrete') else 'symbolic', job.get('state')), run, engine_setup=setup)
+    res = ctx.explore('topology %s %s state=%s' % (job.get('layout', 'three'), 'concrete %s' % (job['concrete'],) if job.get('concrete') else 'symbolic', job.get('state')), run, engine_setup=setup)
     ctx.ops += sum(p.value or 0 for p in res if p.kind == 'ok')
     ctx.sample({'scenario': 'topology', 'paths': len(res)})
 
@@ -211,8 +224,10 @@ def run(ctx):
     quick = ctx.tier == 'quick'
     jobs = [{'kind': 'kernel'}] + [{'kind': 'topo', 'state': k} for k in range(6)]
     jobs += [{'kind': 'topo', 'concrete': (4000, 9000, 12000), 'state': k} for k in ((0, 2, 5) if quick else range(6))]
+    jobs += [{'kind': 'topo', 'layout': lay, 'concrete': (4000, 9000, 12000), 'state': k} for lay in ('two-local', 'two-local-dst') for k in ((0, 3) if quick else range(6))]
+    jobs += [{'kind': 'topo', 'layout': lay, 'state': k} for lay in ('two-local', 'two-local-dst') for k in ((0, 2) if quick else range(6))]
     if not quick: jobs += [{'kind': 'topo', 'concrete': cc, 'state': k} for cc in ((0, 1, 2), (100, 16000, 16381)) for k in range(6)]
-    ctx.bounds = {'topology': '3 proxies, one migration pair, symbolic boundaries a < b < c; all 6 MigrationStates x 2 NODES versions', 'routing agreement': 'concrete boundary layouts with a symbolic slot'}
+    ctx.bounds = {'topology': '3 proxies, one migration pair, symbolic boundaries a < b < c; all 6 MigrationStates x 2 NODES versions; plus 2 proxies where one holds two local masters (after a failover) as migration source or destination', 'routing agreement': 'concrete boundary layouts with a symbolic slot'}
     ctx.assumptions += ['bystander proxies have no migration state: for them a migrating slot may be advertised at either participant (the statement is only enforced on source and destination)',
                         'crc64 node ids are computed concretely (real CRC-64/Jones model)']
     ctx.not_explored += ['two simultaneous migration pairs', 'arbitrary hand-built maps with several ranges per node beyond this topology']
